@@ -183,6 +183,13 @@ Section Oracles.
        q_headers := flatten_entries (sort_entries (iter_order (r_headers r)));
        q_body := r_body r |}.
 
+  (* the conversion as it was before the fix: commit f481600: entries in iteration order *)
+  Definition into_protocol_before_fix (method : bytes) (r : request) : http_request :=
+    {| q_method := method;
+       q_url := url_str (r_query r);
+       q_headers := flatten_entries (iter_order (r_headers r));
+       q_body := r_body r |}.
+
   (* entry point: Http::get(url) etc. `url.parse().unwrap()` *)
   Definition start : res request := if url_ok then Ok request0 else Panic.
 
@@ -346,10 +353,13 @@ Definition oq_eqb (a b : option bytes) : bool :=
   match a, b with None, None => true | Some x, Some y => beqb x y | _, _ => false end.
 Fixpoint url_lookup (t : list (option bytes * option bytes)) (q : option bytes) : option (option bytes) :=
   match t with [] => None | (k, v) :: t' => if oq_eqb k q then Some v else url_lookup t' q end.
-Definition case_url_ok (c : case) : bool :=
-  match url_lookup (c_urls c) None with Some (Some _) => true | _ => false end.
-Definition case_url_str (c : case) (q : option bytes) : bytes :=
-  match url_lookup (c_urls c) q with Some (Some s) => s | _ => [] end.
+(* the two URL oracles read off a table of answers *)
+Definition tbl_url_ok (t : list (option bytes * option bytes)) : bool :=
+  match url_lookup t None with Some (Some _) => true | _ => false end.
+Definition tbl_url_str (t : list (option bytes * option bytes)) (q : option bytes) : bytes :=
+  match url_lookup t q with Some (Some s) => s | _ => [] end.
+Definition case_url_ok (c : case) : bool := tbl_url_ok (c_urls c).
+Definition case_url_str (c : case) (q : option bytes) : bytes := tbl_url_str (c_urls c) q.
 Definition case_ops (c : case) : list op := c_ops1 c ++ c_ops2 c.
 
 (* a case is well-formed when the command API has no request-stage calls and the URL table answers
